@@ -535,9 +535,10 @@ fn run_c19(tier: Tier, shard: Shard) -> ! {
     report.extra("bounds", Value::Object(bounds));
     report.extra("timing", json!({"watchdog_s": tm.watchdog.as_secs(), "stable_observations": tm.stable_n, "observation_gap_us": tm.stable_gap.as_micros() as u64}));
     report.rule(
-        "per family, every sequence over its alphabet of harness steps (Spawn(spec), Send/SendFail/Call/CallFail(actor), Stop(actor), Open(actor) = open the gate the actor is parked at, GJoin/GLeave(actor), GSend, GCall) up to the family depth, with a 'stop here' alternative at every position and enabledness decided by the reference model only, is executed once per configuration on a fresh real Cluster (1-2 dispatcher workers), followed by the canonical finale (drain every gate, stop every actor, join the cluster); after every step the harness waits until the actors' journals have caught up with the reference model, settles, and compares journals, send/call/stop/spawn results, handles, lookups, queue lengths and supervisor events; distinct_nontrivial = distinct final observation signatures",
+        "per family, every sequence over its alphabet of harness steps (Spawn(spec), Send/SendFail/Call/CallFail(actor), Stop(actor), Open(actor) = open the gate the actor is parked at, GJoin/GLeave(actor), GSend, GCall) up to the family depth, with a 'stop here' alternative at every position and enabledness decided by the reference model only, is executed once per configuration on a fresh real Cluster (1-2 dispatcher workers), followed by the canonical finale (drain every gate, stop every actor, join the cluster); after every step the harness waits until the actors' journals have caught up with the reference model, settles, and compares journals, send/call/stop/spawn results, handles, lookups, queue lengths and supervisor events; distinct_nontrivial = distinct final observation signatures; spawn specs additionally vary: pre_stop / post_stop returning Err (families heldstart, supervisor; reference model: both stop hooks always run, in order, exactly once, whatever they return; the reported exit and the supervisor event become Failed(first stop-hook error) only if the exit was Stopped), and, in the registry family with 2 workers, a failed start whose actor VALUE parks in its own Drop at a harness gate (the spawner has received SpawnError::Start, the worker-side task has not finished): every step, in particular a re-spawn under the same name, is enumerated inside that window too (the name must already be free)",
     );
     report.assume("which dispatcher worker hosts which actor, and which group member round-robin picks, are not owned by the harness: the oracle is symmetric in workers and follows the observed member choice (only eligibility of the chosen member and 'handed back only if no live non-full member' are checked)");
+    report.assume("while a worker thread is parked in an actor value's Drop the harness dispatches wake-up tasks (spawns of an unnamed actor type whose pre_start fails at once) until one has run, so that a worker that is not parked takes the enumerated spawn's task from the dispatcher's shared queue; spawns that would reach the dispatcher are enumerated only while fewer workers are parked than exist");
     report.assume("steps are serialized (senders alternate between two harness threads); interleavings inside flume under truly concurrent sends are not explored");
     report.assume("'stop' is modelled as documented (README: 'Calling stop lets the current handler finish'; crate test 'stop bypasses a full mailbox'): after the current handler the actor stops without handling queued messages");
     report.assume("a call that was accepted and still queued when its actor exited must resolve with an explicit error; whether it does is decided in the frozen final state (cluster joined, all worker threads exited), without any timeout");
